@@ -239,6 +239,10 @@ def run_case(case):
             if drv not in sc.HID and q is not None:
                 _drain_queue(q, subs[k], sim.loop.time())
 
+    del _BLOCKS[:]
+    for e in case.get("events", []):
+        if e.get("what") == "block":
+            _BLOCKS.append((1000.0 + e["t"], 1000.0 + e["t"] + e["d"]))
     obs = sc.run(case, hooks={"after_connect": after_connect, "call": call, "inspect": inspect})
     if not obs.get("connected"):
         return [("C20:%s:connect-failed" % drv, "driver did not connect")]
@@ -286,8 +290,13 @@ def run_case(case):
     return compare_serial(drv, case, subs, obs, dmap)
 
 
+_BLOCKS = []      # [(from, to)] virtual-time windows in which the application kept the loop busy (set per case)
+
+
 def _boundary_clash(times, spans):
     edges = [x for a, b in spans for x in (a, b) if x is not None]
+    if any(lo - 1e-6 <= x <= hi + 0.25 for x in edges for lo, hi in _BLOCKS):
+        return True       # (un)subscribed while the loop was busy or catching up: what was pending then is not judged
     return any(abs(t - x) < 1e-6 for t in times for x in edges)
 
 
@@ -424,6 +433,11 @@ def transaction(draw):
         elif k == "twice+backward":
             t.append((small, "backward", 8, draw(st.integers(0, 255))))
         return t
+    if k == "dt+ext" and draw(st.integers(0, 4)) == 0:
+        # something else is on the bus between the announcement and the extended opcode: the announcement is spent
+        dt, ext = draw(st.sampled_from(DTEXT))
+        return [(0, "forward", 16, 0xC100 | dt), (small, "forward", 16, draw(st.sampled_from([0x0105, 0xFE80, 0x0300]))),
+                (2 * small, "forward", 16, ext)]
     if k == "dt+ext":
         dt, ext = draw(st.sampled_from(DTEXT))
         if draw(st.integers(0, 3)) == 0:
@@ -459,10 +473,11 @@ def case_strategy(draw, driver=None):
             as_own = drv == "tridonic" and draw(st.integers(0, 4)) == 0
             if drv in ("luba", "sci"):
                 tr = [x for x in tr if x[1] in ("forward", "backward")]
-            for (dt_, kind, bits, value) in tr:
+            own_one = draw(st.integers(0, len(tr) - 1)) if (drv == "tridonic" and len(tr) >= 2 and draw(st.integers(0, 5)) == 0) else None
+            for j_, (dt_, kind, bits, value) in enumerate(tr):
                 d = {"t": round(t + dt_, 4), "kind": kind if kind != "busok" else "busok", "bits": bits, "value": value}
                 if drv == "tridonic":
-                    if as_own:
+                    if as_own or (own_one == j_ and kind == "forward"):
                         # DALI USB firmware quirk documented in hid.py: a foreign frame identical to the interface's most
                         # recent transmission is reported as if it were its own (mode 0x12, stale sequence number)
                         d["as_own"] = True
@@ -472,6 +487,11 @@ def case_strategy(draw, driver=None):
                     inject.append(d)
                 elif kind == "backward":
                     inject.append(d)
+            if drv == "tridonic" and len(tr) == 2 and tr[1][0] <= 0.1 and draw(st.integers(0, 5)) == 0:
+                # the application keeps the loop busy across the watcher's deadline: the second report became readable
+                # in time (tr[1][0] after the first) but is read late, together with the expired timer
+                events.append({"t": round(t + tr[1][0] / 2, 5), "what": "block", "d": 0.3})
+                t += 0.65      # nothing else on the bus until the watcher has caught up and its own (late) deadline is over
             t += max([x[0] for x in tr] + [0]) if tr else 0
         if draw(st.integers(0, 3)) == 0 or drv == "hasseb":
             # an own send in the gap after the transaction (the bus is idle)
@@ -593,6 +613,8 @@ def features(case):
         f.append("subscriber-that-does-not-keep-its-handle")
     if any(x.get("same_as_own") for x in case.get("inject", [])):
         f.append("other-master-repeats-the-drivers-own-command")
+    if any(e.get("what") == "block" for e in case.get("events", [])):
+        f.append("loop-kept-busy-across-a-watcher-deadline")
     if any(x.get("split") for x in case.get("inject", [])):
         f.append("observed-frame-split-over-two-reads-with-own-send-between")
     if any(x.get("during_handshake") for x in case.get("inject", [])):
